@@ -10,6 +10,7 @@ GENERATORS = {
     "RelKeys_gen": "translator.gen_relkeys",
     "Params_gen": "translator.gen_params",
     "AdjProg_gen": "translator.gen_adjprog",
+    "SetIter_gen": "translator.gen_setiter",
 }
 
 
